@@ -27,7 +27,7 @@ EXPLANATION = (
     "request that carries a multiplexer stores it from that request before anything that can abort; R4 exception to "
     "abort translation in on_request (specific before general, code passed unchanged, KeyError -> 0x06020000, default "
     "0x08000000); R5 the client decodes an abort as '<L' at offset 4 and raises SdoAbortedError(code) before returning; "
-    "R6 data_store has a single writer."
+    "R6 data_store has a single writer. R8 no class-level mutable object is mutated in place by instances (each node/client/map/dictionary has its own state)."
 )
 ASSUMPTIONS = [
     "not decided: random object dictionaries and request histories; write callbacks are opaque",
@@ -282,6 +282,10 @@ def run(chk):
                 chk.check(f.key in (f"{LN}:LocalNode.set_data", f"{LN}:LocalNode.__init__"), "R6", f"{f.key} | writes data_store", f.loc(n),
                           "data_store is written outside LocalNode.set_data: a refused write could change the stored value")
     chk.floor("R6", n_w, 2, "writers of data_store")
+
+    # ------------------------------------------------------------------ R8 instances are independent (shared clause)
+    from . import shared as _shared
+    _shared.isolation(chk, "R8", rels=['canopen/sdo/server.py', 'canopen/sdo/base.py', 'canopen/node/local.py', 'canopen/objectdictionary/__init__.py'])
 
 
 def _immediate_guard(fn, node):
